@@ -44,8 +44,8 @@ def run(prog, rep, tier, snap):
 LEVEL_TEXT = ("Static verdict on necessary structural clauses of C09, for all inputs at once: every store through the occurrence-cache "
               "pointer in the seven fillers is dominated by index<capacity on all CFG paths (must-facts dataflow), callers honour the "
               "capacity contract, no subtractive loop has a fruitless cycle without fuel, enumeration capacities cover the parser's "
-              "admitted values, no division by a may-be-zero month length. It decides those clauses, not termination or memory safety as a whole.")
+              "admitted values, no division by a may-be-zero month length. It decides those clauses, not termination or memory safety as a whole. Also: only a positive INTERVAL reaches the fillers' unsigned step.")
 LEVEL_NOTE = ("Trusted: clang 14 front end and CFG builder, the echse-facts extractor, the python rule engines. Assumes the snapshot's "
               "configure-time config.h; use-after-free and numeric work bounds are not decided.")
-TECHNIQUE = "static analysis: forward must-facts dataflow and loop analysis over clang CFGs, table/extent agreement"
+TECHNIQUE = "static analysis: forward must-facts dataflow and loop analysis over clang CFGs, table/extent agreement; value-fixed walk of the INTERVAL reader"
 READY = True
